@@ -137,15 +137,15 @@ func (m *Mutex) Unlock() {
 
 // RWMutex replaces sync.RWMutex.
 type RWMutex struct {
-	real    sync.RWMutex
-	epoch   int64
-	writer  bool
-	readers int
-	waitingWriters int // writers that have announced themselves: like sync.RWMutex, they block readers arriving later
-	vc      [MaxThreads]uint32 // released by writers
-	rvc     [MaxThreads]uint32 // released by readers
-	global  bool
-	name    string
+	real           sync.RWMutex
+	epoch          int64
+	writer         bool
+	readers        int
+	waitingWriters int                // writers that have announced themselves: like sync.RWMutex, they block readers arriving later
+	vc             [MaxThreads]uint32 // released by writers
+	rvc            [MaxThreads]uint32 // released by readers
+	global         bool
+	name           string
 }
 
 // MarkGlobalRW is MarkGlobal for a package-level RWMutex.
